@@ -33,7 +33,7 @@ pub struct Field {
 
 #[derive(Clone, Debug)]
 pub enum Extent {
-    Frame { len: usize, kind: &'static str, fields: Vec<Field> },
+    Frame { len: usize, fields: Vec<Field> },
     NeedMore,
     Invalid(&'static str),
 }
@@ -357,7 +357,7 @@ fn frame(c: &mut Cur<'_>, format: Format) -> Result<&'static str, Stop> {
 pub fn parse(format: Format, bytes: &[u8]) -> Extent {
     let mut c = Cur { b: bytes, base: 0, pos: 0, fields: Vec::new() };
     match frame(&mut c, format) {
-        Ok(kind) => Extent::Frame { len: c.pos, kind, fields: c.fields },
+        Ok(_) => Extent::Frame { len: c.pos, fields: c.fields },
         Err(Stop::NeedMore) => Extent::NeedMore,
         Err(Stop::Invalid(why)) => Extent::Invalid(why),
     }
